@@ -10,7 +10,7 @@ CHECKS = {
  'C01': dict(
   technique="composition of contracts: keep-or-revert gate contracts on the real drivers of gasol_asm.py (callee contracts as stubs, trace as ghost state; VCs from the real AST, z3), finite-domain opcode/operator and split-set tables, plus a bounded end-to-end run judged by a reference EVM executor; premises C02, C03, C05",
   category='other', ref='DESIGN.md section 4 (C01)',
-  text="Proved for all verdicts/outcomes: a block is emitted in place of the input only if the built-in re-check answered equal, otherwise the very same input block is kept (optimize_asm_contract, optimize_isolated_asm_block), and a sub-block replacement is recorded only under the acceptance test; every opcode of the vocabulary is specified as itself with the operand order of the opcode table (finite, complete) and every externally visible opcode ends a segment. The semantic content (checker sound, specification faithful) is imported from C05/C02/C03. Additionally a bounded end-to-end comparison of emitted vs input block on sampled machine states.",
+  text="Proved for all verdicts/outcomes: a block is emitted in place of the input only if the built-in re-check answered equal, otherwise the very same input block is kept (optimize_asm_contract, optimize_isolated_asm_block), a sub-block replacement is recorded only under the acceptance test and never for a sub-block that accesses memory in front of an MSIZE of the same block; every opcode of the vocabulary is specified as itself with the operand order of the opcode table (finite, complete) and every externally visible opcode ends a segment. The semantic content (checker sound, specification faithful) is imported from C05/C02/C03. Additionally a bounded end-to-end comparison of emitted vs input block on sampled machine states.",
   note=TRUST + "Explicitly partial: faithfulness of the string front end is covered only by the bounded tiers of C02/C03 and the end-to-end run; Max-SMT back end not exercised (no solver installed)."),
  'C02': dict(
   technique="contract on the alias/overlap kernel are_dependent (may-overlap implies dependent, all kind pairs, all constant addresses symbolic; z3) plus a bounded stand-in: every linearization of the exported dependences of corpus blocks evaluated against a reference executor",
@@ -30,22 +30,22 @@ CHECKS = {
  'C05': dict(
   technique="recursion-on-contract proof of compare_variables (one frame with arbitrary symbolic arguments, recursive calls replaced by the function's own contract, uninterpreted denotation functions; z3), gate contract on compare_asm_block_asm_format, plus the whole checker run on semantic mutants judged by a reference executor (bounded)",
   category='other', ref='DESIGN.md section 4 (C05)',
-  text="compare_variables returns True only for variables with equal denotation in both specifications, for every opcode arity and well-formed instruction pair (proved), is reflexive and never raises; the block comparison answers equal only if the specification checker does and the prefix/suffix items coincide, and never raises. Bounded: ~380 distinguishable mutants of 48 corpus blocks are all rejected; every block equals itself.",
+  text="compare_variables returns True only for variables with equal denotation in both specifications, for every opcode arity and well-formed instruction pair (proved), is reflexive and never raises; the block comparison answers equal only if the specification checker does and the prefix/suffix items coincide, never raises, and answers equal for one block object given as both arguments (the old block is analysed under its own name). Bounded: ~380 distinguishable mutants of 48 corpus blocks are all rejected; every block equals itself (checker and the tool's own gate); the three instruction classes of a block are filters of the whole instruction list (all sequences up to length 3/4 over 8 names).",
   note=TRUST + "compare_dependences and the injectivity of the store matching are covered by the bounded tier only; forves adapter not covered (external binary absent)."),
  'C06': dict(
   technique="step lemmas on the real constraint generators: each generator is run on concrete structural parameters (stack bound, depth, arity), its formula object is turned into a z3 formula and 'wf_j and constraint and t_j = theta implies step defined, wf_j+1 and stack_j+1 = step(stack_j)' is decided for ALL assignments; plus bounded model enumeration of full encodings decoded by the tool's own reader, an independent SMT-LIB parser on the emitted text, and the model reader on adversarial model texts",
   category='other', ref='DESIGN.md section 4 (C06)',
-  text="For all 18 stack-constraint generators (both stack representations), every stack bound 2..7 (thorough 2..18), every DUP/SWAP depth and arities 0..3: any assignment satisfying the generated constraint performs exactly the stack step of the instruction, without underflow/overflow, and keeps the stack representation well formed. Bounded: all enumerated models (8 000+) of 150+ full encodings under 8-12 option sets decode to realizing sequences; the emitted SMT-LIB is accepted by z3's parser with every symbol declared once; get_value returns each variable's own definition for prefix-related names in any order.",
+  text="For all 18 stack-constraint generators (both stack representations), every stack bound 2..7 (thorough 2..18), every DUP/SWAP depth and arities 0..3: any assignment satisfying the generated constraint performs exactly the stack step of the instruction, without underflow/overflow, and keeps the stack representation well formed. Bounded: all enumerated models (14 000+) of 350+ full encodings under 8-12 option sets plus a covering array of 11 sets in which every pair of values of two hard-constraint options occurs (-push-basic excluded) decode to realizing sequences; the emitted SMT-LIB is accepted by z3's parser with every symbol declared once; get_value returns each variable's own definition for prefix-related names in any order.",
   note="Parameter-bounded (structure) but unbounded in assignments; composition over positions is an induction meta-step. Trusted: specs/formula.py translation, z3. Pre-order constraint generators are covered by the model enumeration only."),
  'C07': dict(
   technique="objective-accounting obligations on the real soft-constraint generators decided for all assignments (penalty minus sum of weights is constant), instruction cost attributes against independent tables, plus bounded model-level stand-ins: soft minus cost constant over enumerated models, optimum equal under all pruning/bounds option sets and equal to a brute-force optimum",
   category='other', ref='DESIGN.md section 4 (C07)',
-  text="Decided for every assignment within enumerated (weights, position-window) families: both soft-constraint generators price a sequence by the sum of its instruction weights up to a constant; the weights are the instruction costs of the chosen criterion (independent tables). Bounded: on small specifications soft(M) - cost(decode(M)) is constant over all enumerated models, the hard constraints are satisfiable, and the optimum has the same true cost under 5-9 option sets and equals the brute-force optimum over all realizing sequences within the bound.",
+  text="Decided for every assignment within enumerated (weights, position-window) families: both soft-constraint generators price a sequence by the sum of its instruction weights up to a constant; the weights are the instruction costs of the chosen criterion (independent tables). Bounded: on small specifications soft(M) - cost(decode(M)) is constant over all enumerated models, a Max-SMT problem is produced and its hard constraints are satisfiable (read-modify-write blocks included), and the optimum has the same true cost under 5-9 option sets and equals the brute-force optimum over all realizing sequences within the bound.",
   note="The universal optimum-preservation claim (bounds and pruning never remove all optimal programs, for every specification) is NOT decided: it quantifies over all realizing sequences; only bounded instances are checked. Costs of dynamic-gas opcodes are taken from the tool's own figure."),
  'C08': dict(
   technique="contract-based deductive verification: postconditions on improves_criterion, block_has_been_optimized, compare_best_block, update_*_count and on the item/block cost functions against independent cost tables (VCs from the real AST, z3), plus a bounded end-to-end stand-in: the whole tool on corpus blocks under the three criteria with gas measured by an independent model (warm/cold accesses on concrete keys, storage write classes, memory expansion)",
   category='proof', ref='DESIGN.md section 4 (C08)',
-  text="For all cost figures: a replacement is accepted only if it is no costlier in the chosen criterion and (strictly cheaper, or tied and no worse in every other criterion with one strictly better); candidate selection never returns a beaten candidate; item byte/gas figures equal an independent table for every item name and every operand; totals add exactly the per-block figures. Bounded: on ~80 blocks x 3 criteria the emitted block costs no more than its input in bytes, instructions and (on sampled states) gas; the -single-json output holds the optimized code. Three inputs on which a costlier block is accepted under the gas criterion are open known findings (F29-F31: acceptance per sub-block with an empty warm set, storage keys compared as unsimplified strings, loads named by their operands only).",
+  text="For all cost figures: a replacement is accepted only if it is no costlier in the chosen criterion and (strictly cheaper, or tied and no worse in every other criterion with one strictly better); candidate selection never returns a beaten candidate; item byte/gas figures equal an independent table for every item name and every operand; totals add exactly the per-block figures; optimize_block hands on, as the block a candidate is measured against, the block built from the original_instrs of the same specification (and that text is the sub-block: obligation of the specification generator, registered here too). Bounded: AsmBlock.gas_spent equals the independent gas model on every sequence of <= 3 (4) accesses to literal slots/accounts; on ~80 blocks and 3 files of several blocks x 3 criteria the emitted block costs no more than its input in bytes, instructions and (on sampled states) gas; the -single-json output holds the optimized code. Three inputs on which a costlier block is accepted under the gas criterion are open known findings (F29-F31: acceptance per sub-block with an empty warm set, storage keys compared as unsimplified strings, loads named by their operands only).",
   note=TRUST + "List-level figures use AbstractSeq summaries (map/filter/sum homomorphisms). The tool's block-level gas figure (AsmBlock.gas_spent with its symbolic warm/cold bookkeeping) is NOT proved equal to real gas - it is not (F29-F31); the end-to-end clause is a bounded stand-in with the gas model of specs/gasmodel.py (empty warm set at block entry, original = current storage value at block entry)."),
  'C09': dict(
   technique="contracts on ids2asm.id_to_asm_bytecode / asm_from_ids (item shape for every instruction kind, canonical hex for all words; VCs from the real AST, z3), the frame clause of the optimize_asm_contract gate, the loop-contract proof of rebuild_optimized_asm_block (see C14) and its bounded shapes, plus a bounded run of the whole tool on synthetic documents checked by an independent reader",
@@ -75,12 +75,12 @@ CHECKS = {
  'C10': dict(
   technique="exceptional postconditions: safety/resource obligations of the folding and rule kernels (re-run from C03), containment contracts on greedy_from_json / greedy_standalone / search_optimal and on the drivers (stubs may raise), plus a bounded native run of the whole pipeline on corpus and edge blocks under a time budget",
   category='other', ref='DESIGN.md section 4 (C10)',
-  text="Proved: the kernels never raise and never evaluate an unbounded power; any exception of the greedy search becomes an error flag; an exception while optimizing or re-verifying one block keeps that block and the run continues. Bounded: 100 blocks x 5 option sets terminate within 20 s, raise nothing and write an output.",
+  text="Proved: the kernels never raise and never evaluate an unbounded power; any exception of the greedy search becomes an error flag; an exception while optimizing or re-verifying one block keeps that block and the run continues; in a log replay a block that cannot be analysed is kept exactly when the log names none of its sub-blocks. Bounded: 100+ blocks x 4-8 option sets terminate within 20 s, raise nothing and write an output; SMSgreedy.clean_stack returns within 2 s with executable POP/SWAP1..16 on ~1 900 stack shapes of 10..20 elements.",
   note=TRUST + "Termination of the rule fixpoints and time/memory proportionality are not decided (bounded runs only)."),
  'C11': dict(
   technique="gate contract on optimize_asm_from_log (emit only after the re-check, otherwise ValueError and nothing written), contracts on optimize_asm_block_from_log / generate_sfs_dicts_from_log / optimize_block (logged ids are the chosen ones), plus bounded native round trips and tampered logs judged by a reference executor",
   category='other', ref='DESIGN.md section 4 (C11)',
-  text="Proved for every log content: replay emits a block only if the checker accepted it against the original, else stops with an error before writing; the replay rebuilds with exactly asm_from_ids(sfs, log[k]); the optimizing run logs the ids of the chosen sequence and only for accepted sub-blocks. Bounded: log round trip is byte-identical and ~100 tampered logs give an error or an equivalent document.",
+  text="Proved for every log content: replay emits a block only if the checker accepted it against the original, else stops with an error before writing; the replay rebuilds with exactly asm_from_ids(sfs, log[k]); the optimizing run logs the ids of the chosen sequence and only for accepted sub-blocks. Bounded: log round trip is byte-identical and ~250 tampered logs (deletion, duplication, permutation, substitution, foreign ids, block-ending ids inserted; one per operator in quick) give an error or an equivalent document.",
   note=TRUST + "Byte-identity in general additionally needs determinism (C13) and history independence (C12); tamper detection relies on C05."),
  'C17': dict(
   technique="contract-based deductive verification with the PUSH0 flag as a ghost parameter of every contract (is_push0, build_asm_bytecode, generate_push_instruction, id_to_asm_bytecode, item printers/pricing), plus trace contracts on execute_gasol and the contract filter with callee contracts as stubs; z3",
